@@ -958,6 +958,51 @@ theorem crash_ok (C : Crypto) (bs : Array Bytes) (m m' : Nat) (c c1 : Core) (d :
     rw [hok.keep.1, hok.keep.2] at this
     exact this
 
+/-- **a torn data or entry write** (C07): if the write in progress — the block's bytes or the oplog entry — reaches the
+    store only as a byte prefix, the stores are a crash image of the state *before* the step: the entry write is the
+    commit point, and a strict prefix of a frame is no frame (`opimage_torn_entry`, no assumption on the checksum) -/
+theorem torn_ok (C : Crypto) (bs : Array Bytes) (m m' : Nat) (c c1 : Core) (d : Disk) (held held' : Nat → Bool) (st : Step Bool)
+    (e : Entry) (j0 : List SOp) (h : RP C bs m c d held) (hok : StepOK C bs m m' c c1 d held held' st e j0) :
+    (∀ op ∈ j0, ∃ off bytes, op = SOp.write .data off bytes ∧ ∀ t, DurR C bs m held (d.apply (SOp.write .data off (bytes.take t))) c.publicKey c.tree.fork)
+      ∧ (∀ t, t < (frame (encEntry e) c.oplog.currentBit false).length →
+          DurR C bs m held ((d.applyAll j0).apply (SOp.write .oplog (Spec.entriesOffset + c.oplog.entriesByteLength) ((frame (encEntry e) c.oplog.currentBit false).take t)))
+            c.publicKey c.tree.fork) := by
+  obtain ⟨hf, es, hp, hx⟩ := h.per
+  constructor
+  · intro op hop
+    obtain ⟨off, bytes, rfl, hrep⟩ := hok.tornData op hop
+    refine ⟨off, bytes, rfl, fun t => ?_⟩
+    have hd : d.apply (SOp.write .data off (bytes.take t)) = { d with data := d.data.write off (bytes.take t) } := by
+      obtain ⟨tt, da, b, o⟩ := d; rfl
+    exact ⟨c, hf, es, durG_of C bs m held c hf es d _ (hrep t) hp hx h.size (by rw [hd]) (by rw [hd])
+      (by rw [hd]; exact opimage_of_inv c.oplog d.oplog hf es hp.oplog), rfl, rfl⟩
+  · intro t ht
+    have hdat : ∀ op ∈ j0, op.store = .data := hok.j0data
+    have ht0 : (d.applyAll j0).tree = d.tree := LiveRefine.tree_of_applyAll _ _ (fun op hop => by rw [hdat op hop]; decide)
+    have hb0 : (d.applyAll j0).bitfield = d.bitfield := by
+      have := Journal.applyAll_other d j0 .bitfield (fun op hop => by rw [hdat op hop]; decide)
+      simpa [Disk.get] using this
+    have ho0 : (d.applyAll j0).oplog = d.oplog := by
+      have := Journal.applyAll_other d j0 .oplog (fun op hop => by rw [hdat op hop]; decide)
+      simpa [Disk.get] using this
+    have hpre := hok.pre j0.length
+    rw [List.take_length] at hpre
+    generalize hd0 : d.applyAll j0 = d0 at *
+    have hd : d0.apply (SOp.write .oplog (Spec.entriesOffset + c.oplog.entriesByteLength) ((frame (encEntry e) c.oplog.currentBit false).take t))
+        = { d0 with oplog := d0.oplog.write (Spec.entriesOffset + c.oplog.entriesByteLength) ((frame (encEntry e) c.oplog.currentBit false).take t) } := by
+      obtain ⟨tt, da, b, o⟩ := d0; rfl
+    -- the entry fits the format (it is about to be logged)
+    have hmid := hok.per1 hf es hp
+    have heok : EntryOK e := by
+      obtain ⟨_, _, _, _, _, _, _, _, _, _, hoks⟩ := hmid.oplog
+      exact hoks e (by simp)
+    refine ⟨c, hf, es, durG_of C bs m held c hf es d _ ?_ hp hx h.size (by rw [hd]; exact ht0) (by rw [hd]; exact hb0) ?_, rfl, rfl⟩
+    · exact reprAt_disk C bs m c d0 _ held hpre (fun i => by rw [hd]) (by rw [hd]; exact hpre.aligned) (by rw [hd])
+    · rw [hd]
+      show OpImage (d0.oplog.write _ _) hf es
+      rw [ho0]
+      exact opimage_torn_entry c.oplog d.oplog hf es e t hp.oplog heok ht
+
 /-- the three exchanges, cut anywhere, and the recovery -/
 theorem crash_recover (C : Crypto) (bs : Array Bytes) (m m' : Nat) (c c1 : Core) (d : Disk) (held held' : Nat → Bool) (st : Step Bool)
     (e : Entry) (j0 : List SOp) (h : RP C bs m c d held) (hok : StepOK C bs m m' c c1 d held held' st e j0) (k : Nat) :
